@@ -6,7 +6,7 @@ LEVEL = 'exploration'
 RULE = ('Engine A: complete enumeration of FULL(G<=3) eligibility x constraint-subset spaces and deviation-bounded '
         'DEV(G,d) spaces over ALL parameter dimensions (including mutually unsatisfiable constraints, empty size '
         'ranges, no control/treatment-eligible geo, all geos excluded, window exactly n_test+3), both searches; REUSE: the same on a '
-        'data object shared with (and used in between by) another matched-markets object. '
+        'data object shared with (and used in between by) another matched-markets object; EDGE: all singles and pairs of values on the edge of the ACCEPTED parameter domain (integer-valued floats for integer fields, iroas 0, tiny / huge tolerances, ranges and budgets, levels whose quantiles cancel, bounds next to 1) and test periods up to window - 3 on a 110-date panel. '
         'Oracle: return value is a list or the exception is ValueError; per-case wall limit turns non-termination '
         'into a violation. Non-trivial = the search answered with an empty list or ValueError (nothing-feasible '
         'branch) or ran under >= 1 deviation from the default configuration; distinct = distinct case.')
@@ -27,6 +27,45 @@ def panels_for(tier, seed):
     if seed:
         ps.append(('DEVS', {'name': 'C', 'G': 3, 'T': 12, 'seed': seed}))
     return ps
+
+
+def edge_dims(T):
+    """Values on the EDGE of the accepted parameter domain (what the constructor accepts is decided by the constructor:
+    a rejected parameter object is outside the quantifier).  Integer-valued floats for the integer fields, zero / tiny /
+    huge tolerances and budgets, levels whose t-quantiles cancel, the longest admissible test period."""
+    return [
+        ('n_test', [3.0, T - 3]), ('iroas', [0.0, 5e-324, 1e300]), ('n_geos_max', [2.0, 3.0, 10 ** 6]),
+        ('n_pretest_max', [6.0, 10 ** 9, 1e30]), ('n_designs', [2.0, 10 ** 6, 1e30]),
+        ('treatment_geos_range', [[1.0, 2.0], [1, 10 ** 6]]), ('control_geos_range', [[1.0, 2.0], [2, 10 ** 6]]),
+        ('geo_ratio_tolerance', [1e-12, 1e12]), ('volume_ratio_tolerance', [1e-12, 1e12]),
+        ('treatment_share_range', [[1e-12, 1 - 1e-12], [0.5, 0.5000001]]), ('budget_range', [[0.0, 1e-300], [0.0, 1e300], [1e299, 1e300]]),
+        ('sig_level', [0.5, 1e-9, 1 - 1e-9]), ('power_level', [0.5, 1e-9, 1 - 1e-9]),
+        ('rho_max', [0.9, 1 - 1e-12]), ('min_corr', [1 - 1e-12]), ('flevel', [1 - 1e-12]),
+    ]
+
+
+def edge_cases(tier):
+    import itertools
+    out = []
+    for p, rowsets in (({'name': 'B', 'G': 4, 'T': 12}, ([[1, 1, 1]] * 4, [[0, 1, 0], [1, 1, 1], [1, 0, 0], [1, 1, 1]])),
+                       ({'name': 'A', 'G': 2, 'T': 10}, ([[1, 1, 1]] * 2,))):
+        dims = edge_dims(p['T'])
+        for n in (1, 2):
+            for combo in itertools.combinations(range(len(dims)), n):
+                for vals in itertools.product(*[dims[i][1] for i in combo]):
+                    kw = {dims[i][0]: v for i, v in zip(combo, vals)}
+                    for rows in rowsets:
+                        if n == 2 and rows is not rowsets[0] and tier != 'thorough':
+                            continue
+                        out.append({'panel': p, 'rows': [list(r) for r in rows], 'nomatrix': False, 'extra': None, 'kw': kw,
+                                    'deviations': n + (rows is not rowsets[0]), 'edge': True})
+    # long test periods on a long panel: n_test up to window - 3 (the placeholder objects inside the searches must cope)
+    pl = {'name': 'A', 'G': 3, 'T': 110}
+    for nt in (90, 96, 97, 98, 100, 107):
+        for rows in ([[1, 1, 1]] * 3, [[0, 1, 0], [1, 1, 1], [1, 1, 1]]):
+            out.append({'panel': pl, 'rows': [list(r) for r in rows], 'nomatrix': False, 'extra': None,
+                        'kw': {'n_test': nt, 'n_pretest_max': 110}, 'deviations': 2, 'edge': True})
+    return [c for c in spaces.with_methods(out) if spaces.precondition_ok(c)]
 
 
 def cases(tier, seed):
@@ -55,11 +94,17 @@ def cases(tier, seed):
     pB4 = {'name': 'B', 'G': 4, 'T': 12}
     out += spaces.reuse_space(pB4, spaces.ALL_PARAMS, {}, d=2 if tier == 'thorough' else 1)
     out += spaces.reuse2_space(pB4, {})
+    out += edge_cases(tier)
     out.sort(key=lambda c: (c['deviations'], c['panel']['G']))
     return out
 
 
 def run_case(case):
+    if case.get('edge'):
+        try:
+            sc.params(case['kw'])
+        except ValueError:
+            return {'viol': [], 'nontrivial': False, 'outcome': 'parameters-rejected', 'counts': {'outcome_parameters-rejected': 1}}
     obs = sc.observe(case, want_admitted=False)
     viol = sc.oracle_total(case, obs)
     if obs['exc'] is not None:
